@@ -56,6 +56,7 @@ import Proofs.C02
 import Proofs.Lemmas.WalkTop
 import Proofs.Lemmas.WalkValid3
 import Proofs.Lemmas.WalkYield
+import Proofs.Lemmas.WalkAbbrev
 import Proofs.Lemmas.GramXPath
 import Proofs.Lemmas.ParseGram
 import Proofs.Lemmas.ParseRender
@@ -918,6 +919,54 @@ theorem forest_refines_spec (a : Arena) (h : wfb a = true) (env : Env) (henv : E
     ∃ r, Walk.run Generated.handlers a env start (derivTop e) = ofEval r ∧
       Res.Equiv r (Spec.runKF a env start (normCtx e)) :=
   ⟨_, walk_refines_eval a env start e hw, Xsel.C02.run_refines_spec' a h env henv (normCtx e) start hs hsum⟩
+
+/-! ## the grammar's one ambiguity, and abbreviated forms, in the forest -/
+
+open Xsel.Walk in
+/-- **alternatives_agree** — `f(args)/steps` has two derivations in the parser's grammar (the call as a filter
+    expression, the call as the first step of a relative path: the documented extension); the GLL parser
+    returns both and the handlers take the first of a list whose order comes from a Go map.  Both trees have
+    the same leaves and the handler walk evaluates them to the same outcome in every context, so that order
+    cannot change a result (also the content of C13's "BuildExpr of the same string always yields an
+    equivalent query"). -/
+theorem alternatives_agree (e : Expr) (hp : isPathLike e = true) (p : Option Chars) (n : Chars) (as : Exprs)
+    (hhead : (dRel e).1 = .filt (N "FilterExpr" [N "PrimaryExpr" [dCall p n as]]))
+    (hq : qnOk p n = true) (hall : walkOks as = true) (w : WCtx) :
+    (altPath p n as e).yield = (dNat e).yield ∧
+    (walk Expect.handlers (dNat e) w).map WCtx.res = (walk Expect.handlers (altPath p n as e) w).map WCtx.res :=
+  Walk.alternatives_agree e hp p n as hhead hq hall w
+
+open Xsel.Walk in
+/-- **abbreviations_in_the_forest** — the nodes of the ABBREVIATED productions are evaluated exactly as the
+    nodes of their expansions: `@t` as `attribute::t`, a step without axis as `child::t`, `..` as
+    `parent::node()`, `r//S` as `r/descendant-or-self::node()/S`, `//r` and `F//r` likewise (`.` as
+    `self::node()` is part of `forest_walk_refines_eval`).  `Spine r`: `r` is a left-nested list of steps. -/
+theorem abbreviations_in_the_forest :
+    (∀ (t : NodeTest) (w : WCtx),
+      walk Expect.handlers (N "StepWithAxisAndNodeTest" [N "AxisSpecifier" [N "AbbreviatedAxisSpecifier" [tkp .at]], testNode t]) w =
+      walk Expect.handlers (N "StepWithAxisAndNodeTest" [axisNode .attribute, testNode t]) w) ∧
+    (∀ (t : NodeTest) (w : WCtx),
+      walk Expect.handlers (N "Step" [testNode t]) w = walk Expect.handlers (dStep .child t .nil) w) ∧
+    (∀ w : WCtx,
+      walk Expect.handlers (N "Step" [N "AbbreviatedStep" [N "AbbreviatedStepParent" [tkp .dotdot]]]) w =
+      walk Expect.handlers (dStep .parent .node .nil) w) ∧
+    (∀ (r : PT), Spine r → ∀ w : WCtx,
+      walk Expect.handlers (N "AbsoluteLocationPath" [N "AbbreviatedAbsoluteLocationPath" [tkp .dslash, r]]) w =
+      walk Expect.handlers (N "AbsoluteLocationPath" [N "AbsoluteLocationPathWithRelative" [tkp .slash, graft dosStep r]]) w) :=
+  ⟨abbrev_at, abbrev_child, abbrev_dotdot, fun _ h w => abbrev_dslash_absolute h w⟩
+
+open Xsel.Walk in
+/-- `r//S` and `F//r` (the walk of `r` / `F` leaves the document alone: `hframe`, true of every derivation tree) -/
+theorem dslash_in_the_forest (r F : PT) (k : PTs) (w : WCtx) (hr : r.isNt = true) (hF : F.isNt = true)
+    (hfr : ∀ w1, walk Expect.handlers r w = .ok w1 → w1.c.a = w.c.a)
+    (hfF : ∀ w1, walk Expect.handlers F w = .ok w1 → w1.c.a = w.c.a) :
+    walk Expect.handlers (N "RelativeLocationPath" [N "AbbreviatedRelativeLocationPath" [r, tkp .dslash, .nt "Step" k]]) w =
+      walk Expect.handlers (N "RelativeLocationPath" [N "RelativeLocationPathWithStep"
+        [N "RelativeLocationPath" [N "RelativeLocationPathWithStep" [r, tkp .slash, dosStep]], tkp .slash, .nt "Step" k]]) w ∧
+    (∀ r', Spine r' →
+      walk Expect.handlers (N "PathExpr" [N "PathExprFilterWithAbbreviatedPath" [F, tkp .dslash, r']]) w =
+      walk Expect.handlers (pathNode (.filt F) (graft dosStep r')) w) :=
+  ⟨abbrev_dslash_relative r k w hr hfr, fun _ h => abbrev_dslash_filter F h w hF hfF⟩
 
 /-- the hypothesis of the forest theorems holds for the sample tree (non-vacuity) -/
 example : Xsel.Walk.walkOk sampleTree = true := by decide +kernel
